@@ -373,4 +373,253 @@ theorem tidOK_of_infos (t : Tree) (hc : chainOk true t.root = true)
   rw [h2, h2', h3, h3']
   exact this
 
+
+/-! ### clause 6: a rendered row that has branches is a call that raised -/
+
+/-- the loop of `_unpack_stack` goes on only into frames that have a CUR_ERROR -/
+theorem unpackLoop_rows_cur (fs : Array Frame) : ∀ (fuel cur : Nat) (acc : List Row) (r : Row),
+    r ∈ unpackLoop fs fuel cur acc → r ∈ acc ∨ r.frame = cur ∨ ((fs[r.frame]?).bind (·.curError)).isSome = true := by
+  intro fuel
+  induction fuel with
+  | zero => intro cur acc r hr; exact Or.inl (by simpa [unpackLoop] using hr)
+  | succ fuel ih =>
+    intro cur acc r hr
+    unfold unpackLoop at hr
+    cases hf : fs[cur]? with
+    | none => rw [hf] at hr; exact Or.inl hr
+    | some f =>
+      rw [hf] at hr
+      simp only at hr
+      cases hlc : f.lastChild with
+      | none =>
+        rw [hlc] at hr
+        simp only [List.mem_append, List.mem_singleton] at hr
+        rcases hr with hr | hr
+        · exact Or.inl hr
+        · subst hr; exact Or.inr (Or.inl rfl)
+      | some child =>
+        rw [hlc] at hr
+        simp only at hr
+        generalize (if f.childErrors == [child] then [] else f.childErrors) = br at hr
+        have hacc : ∀ r, r ∈ acc ++ [⟨cur, f.curError, br⟩] → r ∈ acc ∨ r.frame = cur := by
+          intro r hr
+          simp only [List.mem_append, List.mem_singleton] at hr
+          rcases hr with hr | hr
+          · exact Or.inl hr
+          · subst hr; exact Or.inr rfl
+        cases hc : br.contains child with
+        | true =>
+          rw [hc] at hr
+          rcases hacc r hr with h | h
+          · exact Or.inl h
+          · exact Or.inr (Or.inl h)
+        | false =>
+          rw [hc] at hr
+          simp only [Bool.false_eq_true, if_false] at hr
+          by_cases hcn : ((fs[child]?).bind (·.curError)).isNone = true
+          · rw [if_pos hcn] at hr
+            rcases hacc r hr with h | h
+            · exact Or.inl h
+            · exact Or.inr (Or.inl h)
+          · rw [if_neg hcn] at hr
+            rcases ih child _ r hr with h | h | h
+            · rcases hacc r h with h' | h'
+              · exact Or.inl h'
+              · exact Or.inr (Or.inl h')
+            · refine Or.inr (Or.inr ?_)
+              rw [h]
+              cases hx : (fs[child]?).bind (·.curError) with
+              | none => rw [hx] at hcn; simp at hcn
+              | some _ => rfl
+            · exact Or.inr (Or.inr h)
+
+/-- the CUR_ERROR of a direct sub-evaluation is the outcome of the chain segment it belongs to -/
+theorem frameAt_cur_sibling : ∀ (K : Kids) (p : Nat) (prev : Option Nat) (n b x : Nat), segResAt n K b = some x →
+    (frameAt p prev n K b).bind (·.curError) = some x := by
+  intro K
+  induction K with
+  | nil => intro p prev n b x h; simp [segResAt] at h
+  | cons ch i ks res rest _ ihrest =>
+    intro p prev n b x h
+    simp only [segResAt] at h
+    split at h
+    · rename_i hb
+      subst hb
+      rw [frameAt_cur_first]; exact h
+    · split at h
+      · simp at h
+      · rename_i h1 h2
+        simp only [frameAt, if_neg h1, if_neg h2]
+        exact ihrest _ _ _ _ _ h
+
+/-- every failed head is the head of a chain segment that raised -/
+theorem failedHeads_cur : ∀ (K : Kids) (h0 : Nat) (prev : Option Nat) (n : Nat) (first : Bool) (b : Nat),
+    chainOk first K = true → b ∈ failedHeads h0 prev n K →
+    (b = h0 ∧ (K.startsChained && prev.isSome) = true ∧ (segRes K).isSome = true) ∨
+    (n ≤ b ∧ (segResAt n K b).isSome = true) := by
+  intro K
+  induction K with
+  | nil => intro h0 prev n first b _ h; simp [failedHeads] at h
+  | cons ch i ks res rest _ ihrest =>
+    intro h0 prev n first b hck hb
+    simp only [chainOk, Bool.and_eq_true, Bool.or_eq_true, Bool.not_eq_true'] at hck
+    obtain ⟨⟨⟨_, _⟩, hres⟩, hckr⟩ := hck
+    simp only [failedHeads, List.mem_append] at hb
+    rcases hb with hb | hb
+    · -- this sibling raised: its segment ends here
+      by_cases hrs : res.isSome = true
+      · rw [if_pos hrs] at hb
+        simp only [List.mem_singleton] at hb
+        have hrc : rest.startsChained = false := by
+          rcases hres with h | h
+          · exact h
+          · cases res <;> simp at hrs h
+        by_cases hc : (ch && prev.isSome) = true
+        · left
+          rw [if_pos hc] at hb
+          exact ⟨hb, by simpa [Kids.startsChained] using hc, by simp [segRes, hrc, hrs]⟩
+        · right
+          rw [if_neg hc] at hb
+          subst hb
+          exact ⟨Nat.le_refl _, by simp [segResAt, segRes, hrc, hrs]⟩
+      · rw [if_neg hrs] at hb; simp at hb
+    · rcases ihrest _ (some n) (n + 1 + ks.size) false b hckr hb with ⟨hh, hcont, hseg⟩ | ⟨hge, hseg⟩
+      · have hrc : rest.startsChained = true := by
+          simp only [Bool.and_eq_true, Option.isSome_some, and_true] at hcont; exact hcont
+        by_cases hc : (ch && prev.isSome) = true
+        · left
+          rw [if_pos hc] at hh
+          exact ⟨hh, by simpa [Kids.startsChained] using hc, by simp [segRes, hrc, hseg]⟩
+        · right
+          rw [if_neg hc] at hh
+          subst hh
+          exact ⟨Nat.le_refl _, by simp [segResAt, segRes, hrc, hseg]⟩
+      · right
+        refine ⟨by omega, ?_⟩
+        simp only [segResAt, if_neg (by omega : ¬ b = n), if_neg (by omega : ¬ b < n + 1 + ks.size)]
+        exact hseg
+
+/-- every frame in a frame's CHILD_ERRORS has a CUR_ERROR -/
+theorem frameAt_childErrors_cur : ∀ (K : Kids) (p : Nat) (prev : Option Nat) (n j : Nat) (first : Bool) (f : Frame),
+    chainOk first K = true → frameAt p prev n K j = some f → n ≤ j → ∀ b, b ∈ f.childErrors →
+    ((frameAt p prev n K b).bind (·.curError)).isSome = true := by
+  intro K
+  induction K with
+  | nil => intro p prev n j first f _ h; simp [frameAt] at h
+  | cons ch i ks res rest ihks ihrest =>
+    intro p prev n j first f hck h hnj b hb
+    have hck' := hck
+    simp only [chainOk, Bool.and_eq_true, Bool.or_eq_true, Bool.not_eq_true'] at hck'
+    obtain ⟨⟨⟨_, hckk⟩, _⟩, hckr⟩ := hck'
+    have hrange := frameAt_childErrors_range (.cons ch i ks res rest) p prev n j f h hnj b hb
+    by_cases hjn : j = n
+    · subst hjn
+      simp only [frameAt, if_true, Option.some.injEq] at h
+      split at h
+      · -- handed on by chain_child: the only entry is the next step
+        rename_i hrs
+        subst h
+        simp only at hb
+        split at hb
+        · rename_i hseg
+          simp only [List.mem_singleton] at hb
+          subst hb
+          simp only [frameAt, if_neg (by omega : ¬ j + 1 + ks.size = j), if_neg (by omega : ¬ j + 1 + ks.size < j + 1 + ks.size)]
+          rw [frameAt_cur_first]; exact hseg
+        · simp at hb
+      · subst h
+        simp only at hb
+        rcases failedHeads_cur ks j none (j + 1) true b hckk hb with ⟨_, hcont, _⟩ | ⟨hge, hseg⟩
+        · simp at hcont
+        · have hblt : b < j + 1 + ks.size := by
+            rcases failedHeads_range ks j none (j + 1) b hb with h' | h'
+            · omega
+            · exact h'.2
+          simp only [frameAt, if_neg (by omega : ¬ b = j), if_pos hblt]
+          obtain ⟨x, hx⟩ := Option.isSome_iff_exists.mp hseg
+          rw [frameAt_cur_sibling ks j none (j + 1) b x hx]; rfl
+    · by_cases hjk : j < n + 1 + ks.size
+      · simp only [frameAt, if_neg hjn, if_pos hjk] at h
+        have hb2 := frameAt_childErrors_range ks n none (n + 1) j f h (by omega) b hb
+        simp only [frameAt, if_neg (by omega : ¬ b = n), if_pos hb2.2]
+        exact ihks n none (n + 1) j true f hckk h (by omega) b hb
+      · simp only [frameAt, if_neg hjn, if_neg hjk] at h
+        have hb2 := frameAt_childErrors_range rest p (some n) (n + 1 + ks.size) j f h (by omega) b hb
+        simp only [frameAt, if_neg (by omega : ¬ b = n), if_neg (by omega : ¬ b < n + 1 + ks.size)]
+        exact ihrest p (some n) (n + 1 + ks.size) j false f hckr h (by omega) b hb
+
+/-- a frame whose row shows branches and that has a CUR_ERROR is the frame of a call that raised -/
+theorem frameAt_branching_raised : ∀ (K : Kids) (o : Option Nat) (p : Nat) (prev : Option Nat) (n j : Nat) (f : Frame),
+    frameAt p prev n K j = some f →
+    (match f.lastChild with
+      | some c => if f.childErrors == [c] then [] else f.childErrors
+      | none => []) ≠ [] →
+    f.curError.isSome = true →
+    ∃ c, c ∈ callsK o n K ∧ c.idx = j ∧ c.result.isSome = true ∧ SameInfo c f := by
+  intro K
+  induction K with
+  | nil => intro o p prev n j f h; simp [frameAt] at h
+  | cons ch i ks res rest ihks ihrest =>
+    intro o p prev n j f h hbr hcur
+    rw [frameAt] at h
+    split at h
+    · rename_i hj
+      simp only [Option.some.injEq] at h
+      split at h
+      · -- a completed step shows no branches
+        exfalso
+        subst h
+        simp only at hbr
+        split at hbr <;> simp at hbr
+      · subst h
+        simp only at hcur
+        exact ⟨_, by simp only [callsK]; exact List.mem_cons_self, hj.symm, hcur, rfl, rfl, rfl, rfl⟩
+    · split at h
+      · obtain ⟨c, hc, h1, h2, h3⟩ := ihks (some n) n none (n + 1) j f h hbr hcur
+        exact ⟨c, by simp only [callsK]; exact List.mem_cons_of_mem _ (List.mem_append_left _ hc), h1, h2, h3⟩
+      · obtain ⟨c, hc, h1, h2, h3⟩ := ihrest o p (some n) (n + 1 + ks.size) j f h hbr hcur
+        exact ⟨c, by simp only [callsK]; exact List.mem_cons_of_mem _ (List.mem_append_right _ hc), h1, h2, h3⟩
+
+/-- **every rendered row's frame has a CUR_ERROR**, from a start that has one -/
+theorem shownRows_cur (t : Tree) (hc : chainOk true t.root = true) :
+    ∀ (fuel h d : Nat), 1 ≤ h → h < 1 + t.root.size →
+      (((replay (events t))[h]?).bind (·.curError)).isSome = true →
+      ∀ p, p ∈ shownRows (replay (events t)) fuel h d → (((replay (events t))[p.2.frame]?).bind (·.curError)).isSome = true
+  | 0, _, _, _, _, _, p, hp => by simp [shownRows] at hp
+  | fuel + 1, h, d, h1, h2, hcur, p, hp => by
+    obtain ⟨hsz, hf⟩ := replay_frames t hc
+    rw [shownRows_succ] at hp
+    obtain ⟨r, hr, hp⟩ := List.mem_flatMap.mp hp
+    obtain ⟨hr1, hr2, hr3⟩ := unpack_row_facts t hc h h1 h2 r hr
+    -- the row's frame has a CUR_ERROR
+    have hrcur : (((replay (events t))[r.frame]?).bind (·.curError)).isSome = true := by
+      unfold unpack at hr
+      have hr' : r ∈ pushDown (unpackLoop (replay (events t)) (replay (events t)).size h []) := (trimTail_prefix _).subset hr
+      obtain ⟨r0, hm, hfr, _, _⟩ := pushDown_mem _ r hr'
+      rcases unpackLoop_rows_cur _ _ _ _ r0 hm with h' | h' | h'
+      · simp at h'
+      · rw [hfr, h']; exact hcur
+      · rw [hfr]; exact h'
+    rcases List.mem_cons.mp hp with hp | hp
+    · subst hp; exact hrcur
+    · obtain ⟨b, hb, hp⟩ := List.mem_flatMap.mp hp
+      have hbf := hr3 b hb
+      -- a branch is one of the frame's CHILD_ERRORS
+      have hsome := frameAt_isSome t.root 0 none 1 r.frame (by omega) hr2
+      obtain ⟨f, hff⟩ := Option.isSome_iff_exists.mp hsome
+      have hbo := unpack_branches _ h r hr
+      have hbm : b ∈ f.childErrors := by
+        rw [hbo] at hb
+        simp only [branchesOf, hf r.frame (by omega), hff] at hb
+        cases hlc : f.lastChild with
+        | none => rw [hlc] at hb; simp at hb
+        | some c =>
+          rw [hlc] at hb
+          simp only at hb
+          split at hb
+          · simp at hb
+          · exact hb
+      have hbcur := frameAt_childErrors_cur t.root 0 none 1 r.frame true f hc hff (by omega) b hbm
+      exact shownRows_cur t hc fuel b (d + 1) (by omega) hbf.2 (by rw [hf b (by omega)]; exact hbcur) p hp
+
 end Glom.C05
